@@ -134,6 +134,9 @@ def run(chk):
                     P._VERIF_FORCE_KERNEL[:] = []
                     if ran != [e['kern'] - 1]:
                         raise tlc.TLCError(f'hook binding broken: forced kernel {e["kern"] - 1}, log says {ran} ({case["label"]})')
+                    if ad.input_modified:
+                        bad = {'step': step, 'clause': f'the caller\'s {ad.input_modified} array is left as it was given whichever kernel ran'}
+                        break
                     exact = ad.exact_regime_ok(e['acc'])
                     try:
                         proj = ad.projection() if exact else None
